@@ -151,6 +151,57 @@ def rename(x, mp: Dict[str, str]):
     return rec(x)
 
 
+def _subst_val(v, mp):
+    def rec(y):
+        if isinstance(y, Frac):
+            return poly.subst(y, mp)
+        if isinstance(y, tuple):
+            return tuple(rec(z) for z in y)
+        if isinstance(y, Num):
+            return Num(rec(y.f))
+        if isinstance(y, BoolV):
+            return BoolV(rec(y.cond) if isinstance(y.cond, tuple) else y.cond)
+        if isinstance(y, DictV):
+            return DictV({k: rec(x) for k, x in y.items.items()})
+        return y
+
+    return rec(v)
+
+
+def _top_ites(v):
+    out = []
+    if isinstance(v, Num):
+        out += [a for a in sorted(v.f.atoms(), key=repr) if a[0] == "ite"]
+    elif isinstance(v, DictV):
+        for k in sorted(v.items):
+            out += _top_ites(v.items[k])
+    return out
+
+
+def expand_cases(facts, ret, writes, max_split=4):
+    """a value that is a conditional expression `ite(c, a, b)` is the same reading as two guarded cases (c -> a, not c -> b): expand the
+    top-level conditionals of the returned and written values so that `x = a if c else b` and `if c: x = a else: x = b` compare equal"""
+    work = [(tuple(facts), ret, dict(writes), 0)]
+    out = []
+    while work:
+        f, r, w, depth = work.pop()
+        ites = _top_ites(r)
+        for k in sorted(w):
+            ites += _top_ites(w[k])
+        if not ites or depth >= max_split:
+            out.append((f, r, w))
+            continue
+        atom = ites[0]
+        cond, a, b = atom[1], atom[2], atom[3]
+        for c, val in ((cond, a), (poly._neg_cond(cond), b)):
+            if c is False or (isinstance(c, tuple) and poly._neg_cond(c) in f):
+                continue
+            mp = {atom: val}
+            f2 = f if (c is True or c in f) else f + (c,)
+            work.append((f2, _subst_val(r, mp), {k: _subst_val(x, mp) for k, x in w.items()}, depth + 1))
+    return out
+
+
 def compare_class(prop: str, res: Result, repo: Repo, ci: ClassInfo) -> None:
     ref = ref_for(repo, ci)
     if ref is None:
@@ -172,21 +223,28 @@ def compare_class(prop: str, res: Result, repo: Repo, ci: ClassInfo) -> None:
         res.fail("R-WIRE", finding(prop, "R-WIRE", init, getattr(init, "node", None), f"helper wiring differs from the definition: expected {missing}; found {extra}", construct=f"{ci.name} composition: " + "; ".join(extra)[:150]))
     ids_c, ids_r = helper_ids(ca.tree), helper_ids(cr.tree)
     # ---- formulas
-    ref_paths = [(rename(tuple(pr.state.facts), ids_r), rename(pr.ret, ids_r), {ids_r.get(k, k): rename(v, ids_r) for k, v in final_writes(pr).items()}, sorted(ids_r.get(d, d) for d in drives(pr)), pr) for pr in cr.paths]
+    ref_cases = []
+    for pr in cr.paths:
+        rw = {ids_r.get(k, k): rename(v, ids_r) for k, v in final_writes(pr).items()}
+        for f, r, w in expand_cases(rename(tuple(pr.state.facts), ids_r), rename(pr.ret, ids_r), rw):
+            ref_cases.append((f, r, w, sorted(ids_r.get(d, d) for d in drives(pr)), pr))
+    code_cases = []
     for pc in ca.paths:
-        fc = rename(tuple(pc.state.facts), ids_c)
-        matches = [rp for rp in ref_paths if compatible(fc, rp[0])]
+        cw = {ids_c.get(k, k): rename(v, ids_c) for k, v in final_writes(pc).items()}
+        for f, r, w in expand_cases(rename(tuple(pc.state.facts), ids_c), rename(pc.ret, ids_c), cw):
+            code_cases.append((f, r, w, sorted(ids_c.get(d, d) for d in drives(pc)), pc))
+    for fc, cret, wc, cdrives, pc in code_cases:
+        matches = [rp for rp in ref_cases if compatible(fc, rp[0])]
         guard = " & ".join(show_cond(c) for c in fc)[:200] or "always"
         if not matches:
             res.fail("R-VN", finding(prop, "R-VN", fn, pc.node or fn.node, f"no case of the definition is compatible with the guard [{guard}]", construct=f"{ci.name} guard: {guard}"[:190]))
             continue
-        for rfacts, rret, rwrites, rdrives, pr in matches:
-            rguard = " & ".join(show_cond(c) for c in pr.state.facts)[:160] or "always"
-            ok, why = same_val(rename(pc.ret, ids_c), rret)
+        for rfacts, rret, wr, rdrives, pr in matches:
+            rguard = " & ".join(show_cond(c) for c in rfacts)[:160] or "always"
+            ok, why = same_val(cret, rret)
             if not ok:
                 res.fail("R-VN", finding(prop, "R-VN", fn, pc.node or fn.node, f"under [{guard}] the reading differs from the definition (case [{rguard}]): {why}", construct=f"{ci.name} value under [{guard}]"[:190]))
                 continue
-            wc, wr = {ids_c.get(k, k): rename(v, ids_c) for k, v in final_writes(pc).items()}, rwrites
             bad = None
             if set(wc) != set(wr):
                 bad = f"series written {sorted(wc)} != {sorted(wr)}"
@@ -196,15 +254,14 @@ def compare_class(prop: str, res: Result, repo: Repo, ci: ClassInfo) -> None:
                     if not ok2:
                         bad = f"value written to {k}: {why2}"
                         break
-            if bad is None and sorted(ids_c.get(d, d) for d in drives(pc)) != rdrives:
+            if bad is None and cdrives != rdrives:
                 bad = f"helpers driven {drives(pc)} != {drives(pr)}"
             if bad:
                 res.fail("R-VN", finding(prop, "R-VN", fn, pc.node or fn.node, f"under [{guard}] the helper state differs from the definition: {bad}", construct=f"{ci.name} state under [{guard}]"[:190]))
             else:
-                res.ok("R-VN", {"class": ci.name, "guard": guard, "value": _short(pc.ret), "definition case": rguard}, nontrivial=f"{ci.name}:{guard}")
+                res.ok("R-VN", {"class": ci.name, "guard": guard, "value": _short(cret), "definition case": rguard}, nontrivial=f"{ci.name}:{guard}")
     # every definition case must be reachable by some code path
-    for pr in cr.paths:
-        fr = rename(tuple(pr.state.facts), ids_r)
-        if not any(compatible(rename(tuple(pc.state.facts), ids_c), fr) for pc in ca.paths):
+    for fr, _, _, _, pr in ref_cases:
+        if not any(compatible(fc, fr) for fc, _, _, _, _ in code_cases):
             rguard = " & ".join(show_cond(c) for c in fr)[:200]
             res.fail("R-VN", finding(prop, "R-VN", fn, fn.node, f"the definition's case [{rguard}] has no counterpart in the code", construct=f"{ci.name} missing case [{rguard}]"[:190]))
